@@ -7,42 +7,52 @@
 package plugin
 
 //@ func plugin.DeviceModule.Receive
+//@   params m ctx messageName messageBody respond yield
 //@   props C10(sweep)
 //@   sweep bounds,panic,make,nilmem,div
 
 //@ func plugin.DeviceModule.Yield
+//@   params m ctx respond yield
 //@   props C10(sweep)
 //@   sweep bounds,panic,make,nilmem,div
 
 //@ func plugin.OwnerModule.HandleInfo
+//@   params m ctx messageName messageBody
 //@   props C10(sweep)
 //@   sweep bounds,panic,make,nilmem,div
 
 //@ func plugin.protocol.DecodeValue
+//@   params p
 //@   props C10(sweep)
 //@   sweep bounds,panic,make,nilmem,div
 
 //@ func plugin.protocol.ModuleName
+//@   params p
 //@   props C10(sweep)
 //@   sweep bounds,panic,make,nilmem,div
 
 //@ func plugin.protocol.Peek
+//@   params p
 //@   props C10(sweep)
 //@   sweep bounds,panic,make,nilmem,div
 
 //@ func plugin.protocol.Recv
+//@   params p
 //@   props C10(sweep)
 //@   sweep bounds,panic,make,nilmem,div
 
 //@ func plugin.protocol.Send
+//@   params p c param
 //@   props C10(sweep)
 //@   sweep bounds,panic,make,nilmem,div
 
 //@ func plugin.protocol.encodeArray
+//@   params p v
 //@   props C10(sweep)
 //@   sweep bounds,panic,make,nilmem,div
 
 //@ func plugin.protocol.encodeMap
+//@   params p v
 //@   props C10(sweep)
 //@   sweep bounds,panic,make,nilmem,div
 
